@@ -611,7 +611,7 @@ def model_super(rep, drv, p, q, code_sup, code_sub, code_eq, what):
     rep.corr_checked += 1
     want = 'ok %d %d %d' % (bool(code_sup), bool(code_sub), bool(code_eq))
     if ans != want:
-        rep.disagree('CONSTR_SUPER', {'kind': what, 'parent': sexp(p), 'child': sexp(q)}, ans, want)
+        rep.disagree('CONSTR_SUPER', {'kind': 'super', 'where': what, 'parent': sexp(p), 'child': sexp(q)}, ans, want)
 
 
 def check_chain(rep, drv, rng, fam, c0, style, steps):
@@ -1329,8 +1329,13 @@ def replay(path):
     for r in cases:
         rep = common.Report('C14', 'quick', 0)
         rep.known = []
-        if not run_case(rep, drv, rng, r):
-            print('replay: cannot re-run %r' % (r,))
+        try:
+            known = run_case(rep, drv, rng, r)
+        except (KeyError, IndexError, ValueError, TypeError) as ex:
+            known = False
+            print('replay: malformed case (%s: %s)' % (type(ex).__name__, ex))
+        if not known:
+            print('replay: cannot re-run %s' % (json.dumps(r)[:300],))
             continue
         bad = bool(rep.failures or rep.corr_disagreements)
         print('replay %s: %s' % (json.dumps(r)[:200], 'STILL FAILS' if bad else 'passes now'))
